@@ -73,6 +73,65 @@ func (m matcher06) Match(_ context.Context, q *query_context.Context) (bool, err
 	return false, fmt.Errorf("m%d", m.id)
 }
 
+// The three ways rule text can name a matcher (parseMatch / newMatcher):
+// `$m12` (a plugin by tag), `c06m 12` (an inline matcher: type + args, built
+// by the registered quick setup for every occurrence) and `$c06q 12` (a tagged
+// plugin that is configured per occurrence through QuickConfigureMatch).
+// Kinds 5 and 6 are the stock inline matchers `_true` / `_false` (they log
+// nothing).
+type quick06 struct{}
+
+func (quick06) Match(context.Context, *query_context.Context) (bool, error) {
+	return false, errors.New("c06q used without arguments")
+}
+
+func (quick06) QuickConfigureMatch(args string) (sequence.Matcher, error) {
+	var id int
+	if _, err := fmt.Sscanf(args, "%d", &id); err != nil {
+		return nil, err
+	}
+	return matcher06{id}, nil
+}
+
+func init() {
+	sequence.MustRegMatchQuickSetup("c06m", func(_ sequence.BQ, args string) (sequence.Matcher, error) {
+		return quick06{}.QuickConfigureMatch(args)
+	})
+}
+
+const (
+	byTag06 = iota
+	inline06
+	quickTag06
+)
+
+// matchText06 renders matcher `m<id>` / `!m<id>` to rule text.
+func (r *Run) matchText06(m string, mode int, plugins map[string]any) string {
+	rev := strings.HasPrefix(m, "!")
+	name := strings.TrimPrefix(m, "!")
+	var id int
+	fmt.Sscanf(name, "m%d", &id)
+	var txt string
+	switch {
+	case id/1000 == 5:
+		txt = "_true"
+	case id/1000 == 6:
+		txt = "_false"
+	case mode == inline06:
+		txt = fmt.Sprintf("c06m %d", id)
+	case mode == quickTag06:
+		plugins["c06q"] = quick06{}
+		txt = fmt.Sprintf("$c06q %d", id)
+	default:
+		plugins[name] = matcher06{id}
+		txt = "$" + name
+	}
+	if rev {
+		txt = []string{"!" + txt, "! " + txt, " !" + txt + " "}[r.Rng.Intn(3)]
+	}
+	return txt
+}
+
 type plain06 struct{ id int }
 
 func (p plain06) Exec(_ context.Context, q *query_context.Context) error {
@@ -278,6 +337,66 @@ func (r *Run) genRepeat06(idx int) []rule06 {
 	return s
 }
 
+// genIfElse06: the if/else idiom (`cond -> A`, `!cond -> B`) and its
+// relatives: 2..5 rules whose matchers are drawn from an alphabet of only one
+// or two conditions, each occurrence negated or not independently (so the same
+// matcher text occurs several times in one sequence with both polarities, the
+// first occurrence negated or not, also `x` and `!x` inside one rule); half of
+// the rules after the first are the exact complement of their predecessor.
+// Conditions: constant true/false (logging, or the stock `_true`/`_false`),
+// response present, first-time-asked, rarely failing.
+func (r *Run) genIfElse06(idx int) []rule06 {
+	var conds []string
+	for j := 1 + r.Rng.Intn(2); j > 0; j-- {
+		kind := []int{0, 0, 1, 1, 3, 3, 4, 5, 6}[r.Rng.Intn(9)]
+		num := r.Rng.Intn(20)
+		if kind >= 3 {
+			num = r.Rng.Intn(3)
+		}
+		if kind >= 5 {
+			num = 0
+		}
+		if r.Rng.Intn(25) == 0 {
+			kind = 2
+		}
+		conds = append(conds, fmt.Sprintf("m%d", kind*1000+num))
+	}
+	toggle := func(m string) string {
+		if strings.HasPrefix(m, "!") {
+			return m[1:]
+		}
+		return "!" + m
+	}
+	var s []rule06
+	if r.Rng.Intn(3) == 0 {
+		s = append(s, rule06{act: fmt.Sprintf("a%d", 2000+r.Rng.Intn(6))})
+	}
+	for i, n := 0, 2+r.Rng.Intn(4); i < n; i++ {
+		var ms []string
+		if prev := len(s) - 1; i > 0 && len(s[prev].ms) == 1 && r.Rng.Intn(2) == 0 {
+			ms = []string{toggle(s[prev].ms[0])} // else-branch of the rule before
+		} else {
+			for j := []int{1, 1, 1, 2, 3}[r.Rng.Intn(5)]; j > 0; j-- {
+				c := conds[r.Rng.Intn(len(conds))]
+				if r.Rng.Intn(2) == 0 {
+					c = "!" + c
+				}
+				ms = append(ms, c)
+			}
+		}
+		act := r.plainAct06(25)
+		if r.Rng.Intn(6) == 0 {
+			acts := []string{"A", "r", "R3", fmt.Sprintf("w%d", []int{0, 2, 3, 4}[r.Rng.Intn(4)]*1000+r.Rng.Intn(20))}
+			if idx > 0 {
+				acts = append(acts, fmt.Sprintf("J%d", r.Rng.Intn(idx)), fmt.Sprintf("G%d", r.Rng.Intn(idx)))
+			}
+			act = acts[r.Rng.Intn(len(acts))]
+		}
+		s = append(s, rule06{ms: ms, act: act})
+	}
+	return s
+}
+
 func seqOp06(s []rule06) string {
 	if len(s) == 0 {
 		return "-"
@@ -314,9 +433,15 @@ func refRun06(seqs [][]rule06, rules []rule06, k func(*st06) error, s *st06) err
 				first = false
 			}
 		}
-		s.log = append(s.log, name)
+		if id/1000 != 5 && id/1000 != 6 { // the stock _true / _false log nothing
+			s.log = append(s.log, name)
+		}
 		var v bool
 		switch id / 1000 {
+		case 5:
+			v = true
+		case 6:
+			v = false
 		case 0:
 			v = true
 		case 1:
@@ -410,7 +535,7 @@ func runC06(r *Run) {
 		for i := 0; i < nseq; i++ {
 			seqs = append(seqs, r.genSeq06(i, true))
 		}
-		if it%3 == 0 {
+		if it%4 == 0 {
 			// structured stream: wrappers that re-run their continuation sit inside
 			// sequences that are entered by jump and have rules behind them, and the
 			// callers have rules behind the jump (pending jump returns matter).
@@ -441,7 +566,7 @@ func runC06(r *Run) {
 				seqs = append(seqs, s)
 			}
 		}
-		if it%3 == 1 {
+		if it%4 == 1 {
 			// repeated-condition stream (see genRepeat06)
 			seqs = nil
 			nseq = 1 + r.Rng.Intn(3)
@@ -449,6 +574,17 @@ func runC06(r *Run) {
 				seqs = append(seqs, r.genRepeat06(i))
 			}
 			r.Count("stream:repeated-condition")
+		}
+		inlineIn, quickIn := 4, 8 // one matcher in 4 is written inline, one in 8 as `$tag args`
+		if it%4 == 2 {
+			// if/else stream (see genIfElse06); conditions mostly inline
+			seqs = nil
+			nseq = 1 + r.Rng.Intn(3)
+			for i := 0; i < nseq; i++ {
+				seqs = append(seqs, r.genIfElse06(i))
+			}
+			inlineIn, quickIn = 2, 4
+			r.Count("stream:if-else")
 		}
 		var ops []string
 		for _, s := range seqs {
@@ -461,21 +597,31 @@ func runC06(r *Run) {
 		m := coremain.NewTestMosdnsWithPlugins(plugins)
 		var built []*sequence.Sequence
 		buildErr := error(nil)
+		// how each matcher is written: one way per matcher and program (so a
+		// repeated condition is the same text every time), now and then
+		// another way for a single occurrence
+		modes := map[string]int{}
+		var config []string
 		for i, s := range seqs {
 			var ras []sequence.RuleArgs
 			for _, rl := range s {
 				var ra sequence.RuleArgs
 				for _, mt := range rl.ms {
-					rev := strings.HasPrefix(mt, "!")
 					name := strings.TrimPrefix(mt, "!")
-					var id int
-					fmt.Sscanf(name, "m%d", &id)
-					plugins[name] = matcher06{id}
-					txt := "$" + name
-					if rev {
-						txt = []string{"!$" + name, "! $" + name, " !$" + name + " "}[r.Rng.Intn(3)]
+					mode, ok := modes[name]
+					if !ok {
+						switch {
+						case r.Rng.Intn(inlineIn) == 0:
+							mode = inline06
+						case r.Rng.Intn(quickIn) == 0:
+							mode = quickTag06
+						}
+						modes[name] = mode
 					}
-					ra.Matches = append(ra.Matches, txt)
+					if r.Rng.Intn(12) == 0 {
+						mode = r.Rng.Intn(3)
+					}
+					ra.Matches = append(ra.Matches, r.matchText06(mt, mode, plugins))
 				}
 				a := rl.act
 				var id int
@@ -503,6 +649,7 @@ func runC06(r *Run) {
 					ra.Exec = "goto  seq" + a[1:]
 				}
 				ras = append(ras, ra)
+				config = append(config, fmt.Sprintf("seq%d: '%s' -> '%s'", i, strings.Join(ra.Matches, "' '"), ra.Exec))
 			}
 			sq, err := sequence.NewSequence(sequence.NewBQ(m, m.Logger()), ras)
 			if err != nil {
@@ -513,7 +660,7 @@ func runC06(r *Run) {
 			built = append(built, sq)
 		}
 		if buildErr != nil {
-			r.Fail("a valid sequence program was rejected: "+buildErr.Error(), map[string]any{"program": line})
+			r.Fail("a valid sequence program was rejected: "+buildErr.Error(), map[string]any{"program": line, "config": config})
 			continue
 		}
 		q := new(dns.Msg)
@@ -543,8 +690,23 @@ func runC06(r *Run) {
 		if rerr != nil {
 			want = "err " + strings.Join(ref.log, ",")
 		}
-		nontrivial, repeated := false, false
+		nontrivial, repeated, bothPol := false, false, false
 		for _, s := range seqs {
+			pol := map[string]int{} // matcher -> 1 seen plain, 2 seen negated
+			for _, rl := range s {
+				for _, m := range rl.ms {
+					k := strings.TrimPrefix(m, "!")
+					if k == m {
+						pol[k] |= 1
+					} else {
+						pol[k] |= 2
+					}
+					if pol[k] == 3 {
+						bothPol = true
+						nontrivial = true // a condition and its negation in one sequence
+					}
+				}
+			}
 			for i, rl := range s {
 				if strings.ContainsAny(rl.act[:1], "JGrw") {
 					nontrivial = true
@@ -562,6 +724,15 @@ func runC06(r *Run) {
 		if repeated {
 			r.Count("adjacent rules with the same condition")
 		}
+		if bothPol {
+			r.Count("a matcher and its negation in one sequence")
+			for _, md := range modes {
+				if md != byTag06 {
+					r.Count("a matcher and its negation in one sequence, some matcher inline or `$tag args`")
+					break
+				}
+			}
+		}
 		r.Eval(line, nontrivial && len(lg.ev) > 2)
 		r.Count(fmt.Sprintf("seqs=%d", nseq))
 		if err != nil {
@@ -570,8 +741,8 @@ func runC06(r *Run) {
 			r.Count("ended:ok")
 		}
 		if out != want {
-			r.Fail("the sequence did not execute as its rules say", map[string]any{"program": line, "got": out, "want": want})
+			r.Fail("the sequence did not execute as its rules say", map[string]any{"program": line, "config": config, "got": out, "want": want})
 		}
 	}
-	r.Finish("1..4 sequences built bottom-up (later ones jump/goto earlier ones), 0..5 rules each, 0..3 matchers per rule (true/false/error/response-present/first-time-asked, a third negated with '!' in three spellings), actions: plain (log only / answer the query / drop the response / error), accept, reject, return, jump, goto, wrappers that continue / stop / post-process / run the continuation twice / run it concurrently on two copies; a third of the programs are built from blocks of 2..4 adjacent rules that repeat one condition whose value the actions change (the `!has_resp -> primary; !has_resp -> secondary` idiom), so every rule must evaluate its own matchers on the state left by its predecessors; rendered to rule text and loaded by sequence.NewSequence; non-trivial = uses jump/goto/return/wrapper or a repeated state-dependent condition and logs more than 2 events")
+	r.Finish("1..4 sequences built bottom-up (later ones jump/goto earlier ones), 0..5 rules each, 0..3 matchers per rule (true/false/error/response-present/first-time-asked, a third negated with '!' in three spellings; each matcher written as `$tag`, as an inline `type args` matcher built through a registered quick setup, as `$tag args` configured through QuickConfigureMatch, or the stock `_true`/`_false`, one way per matcher and program with occasional exceptions), actions: plain (log only / answer the query / drop the response / error), accept, reject, return, jump, goto, wrappers that continue / stop / post-process / run the continuation twice / run it concurrently on two copies; a quarter of the programs are built from blocks of 2..4 adjacent rules that repeat one condition whose value the actions change (the `!has_resp -> primary; !has_resp -> secondary` idiom), so every rule must evaluate its own matchers on the state left by its predecessors; a quarter are if/else programs (2..5 rules over an alphabet of one or two conditions, every occurrence negated or not independently, half of the rules the exact complement of the rule before, conditions mostly inline), so the same matcher text occurs in one sequence with both polarities; rendered to rule text and loaded by sequence.NewSequence; non-trivial = uses jump/goto/return/wrapper, a repeated state-dependent condition or a matcher together with its negation in one sequence, and logs more than 2 events")
 }
